@@ -24,7 +24,7 @@ const c02Rule = "triples (a,b,c) of BGP/static paths over the bounded attribute 
 
 // c02Triple draws the triple.
 func c02Triple(t *rapid.T) (kit.SelDomain, [3]kit.SelPath) {
-	d := kit.GenSelDomain(t)
+	d := kit.GenSelDomainMaybeMixed(t)
 	var s [3]kit.SelPath
 	s[0] = d.GenAny(t, "a")
 	for i := 1; i < 3; i++ {
@@ -142,7 +142,7 @@ func TestVerifC02RoutePerm(t *testing.T) {
 	rapid.Check(t, func(t *rapid.T) {
 		c := rec.Case()
 		defer c.Done()
-		specs := kit.GenSelDomain(t).GenSet(t, 2, 6, true)
+		specs := kit.GenSelDomainMaybeMixed(t).GenSet(t, 2, 6, true)
 		perm := rapid.Permutation(seqInts(len(specs))).Draw(t, "perm")
 		objs := make([]*route.Path, len(specs))
 		for i, s := range specs {
